@@ -19,7 +19,10 @@ TEXT = {
                  "listings, custom metadata) is proved to refine one dictionary keyed by 'function-with-version/argument-hash' held by the abstract metadata source, and to preserve "
                  "cache/store coherence (whatever the write-through MemoryCache or its weak references hold is exactly what the store holds, for any cache budget or no cache); "
                  "every MemoryCache method is proved against its own contract. The history quantifier follows by induction over these per-operation contracts.",
-        "note": "Partial: the memory backend and DataSourceMetadataSource/_FilesystemDataSource are not yet proved against the interface contracts (assumed). Assumed: qualified names contain no '/'; "
+        "note": "The memory backend (storage_memory.MemoryStorageBackend: nested defaultdict/dict objects modelled as mutable mapping objects on the heap) is proved against the same dictionary view for "
+                "__init__, lookups, is-memoized, read result, memoize, forget call / everything, custom metadata and list_functions (nothing without a live entry is listed -- D5, repaired); its forget_function, "
+                "list_mementos and the 'every live function is listed' direction are not under contract. Partial: DataSourceMetadataSource is not proved against the interface contract (assumed; "
+                "_FilesystemDataSource's write and read path is proved under C08). Assumed: qualified names contain no '/'; "
                 "no I/O fault inside an operation; read_result is given the current memento; pickle round trip preserves the abstract value.",
         "technique": "contract-based deductive verification: own VC generator over the real source + z3/cvc5",
     },
@@ -37,7 +40,7 @@ TEXT = {
                  "memory cache unchanged: memoize returns silently, forget_* and write_metadata raise ValueError before any callee runs; the flag is proved to come from the argument if given, "
                  "else from the configuration, else False. NullStorageBackend methods are proved to report nothing memoized; NullRunnerBackend.batch_run is proved to raise without invoking "
                  "any opaque callable.",
-        "note": "Assumed: every mutating method of the abstract sources increments the ghost write counter (interface contract); the memory backend, FilesystemStorageBackend.__init__ and the frame scan "
+        "note": "Assumed: every mutating method of the abstract sources increments the ghost write counter (interface contract); the memory backend's memoize / forget_call / forget_everything / write_metadata are proved to change nothing (or raise) when read_only is set; its forget_function, FilesystemStorageBackend.__init__ and the frame scan "
                 "of _FilesystemDataSource read methods are not covered yet.",
         "technique": "contract-based deductive verification: own VC generator over the real source + z3/cvc5",
     },
